@@ -136,7 +136,9 @@ def frag_text(fr):
 class Case:
     """steps: list of dicts.
        {'k':'screen', w,h,npw,firstvo,never,always,dontdisc,deferptr,utf8}
-       {'k':'connect','c':id,'vo':0/1}
+       {'k':'connect','c':id,'vo':0/1[,'hold':1]}     hold: newClientHook answers RFB_CLIENT_ON_HOLD
+       {'k':'release','c':id}                         rfbStartOnHoldClient
+       {'k':'udpon','hold':0/1} {'k':'udp','data':hex}   the UDP input channel: open the port; one datagram + one pass
        {'k':'hs','c':id,'what':'ver'|'sec'|'auth'|'init', 'data':hex | 'pw':k,'sizes':[..]}
        {'k':'msg','c':id,'data':hex,'sem':[...]}      sem = message-level meaning, see spec()
        {'k':'raw','c':id,'data':hex}                  bytes with no message-level meaning (oracle: unknown)
@@ -154,7 +156,13 @@ class Case:
                 L.append("screen %d %d %d %d %d %d %d %d %d %d" % (s["w"], s["h"], s["npw"], s["firstvo"], s["never"],
                                                                  s["always"], s["dontdisc"], s["deferptr"], s["utf8"], VARIANT))
             elif k == "connect":
-                L.append("connect %d %d" % (s["c"], s["vo"]))
+                L.append("%s %d %d" % ("hconnect" if s.get("hold") else "connect", s["c"], s["vo"]))
+            elif k == "release":
+                L.append("release %d" % s["c"])
+            elif k == "udpon":
+                L.append("udpon %d" % s["hold"])
+            elif k == "udp":
+                L.append("udp %s" % s["data"])
             elif k == "hs" and s["what"] == "auth":
                 L.append("auth %d %d %s" % (s["c"], s["pw"], ",".join(map(str, s["sizes"]))))
             elif k in ("hs", "msg", "raw"):
@@ -281,6 +289,9 @@ def gen_bad_msg(rng):
 
 
 # ------------------------------------------------------------------ message-level specification machine (the oracle)
+UDP_ID = 255       # the id under which the harness reports callbacks made for screen->udpClient
+
+
 def exact_unscale(x, fw, tw):
     return (x * tw) // fw
 
@@ -295,6 +306,35 @@ class Spec:
         self.scr = None
         self.known_scale = False     # a pointer position went through a non-trivial scale factor
         self.alt = {}                # index in the expected list -> what the binary64 formula on record yields (finding F17)
+        self.udp = None              # None: port closed; else {'hold': bool}
+
+    def one_pass(self, exp):
+        """one rfbProcessEvents: every connection that is not on hold handles its next whole message"""
+        busy = [i for i, c in self.cl.items() if c["phase"] != "closed" and c["pend"] and not c.get("held")]
+        if len(busy) > 1:
+            return None          # not sequential
+        closed_now = []
+        for i in busy:
+            r = self.one(i, exp)
+            if r is None:
+                return None
+            if self.cl[i]["phase"] == "closed":
+                closed_now.append(i)
+        for i in closed_now:
+            if self.holder == i:
+                self.holder = None
+        return True
+
+    def udp_datagram(self, d, exp):
+        """the property for the UDP channel: input only through an open port, never on a screen that requires a
+        password, never while the channel's client is on hold; a well-formed datagram is delivered unaltered
+        (attributed to the UDP client, id 255), anything else is dropped"""
+        if self.udp is None or self.udp["hold"] or self.scr["npw"] > 0:
+            return
+        if len(d) == 8 and d[0] == 4:
+            exp.append("K:%d:%d:%d" % (UDP_ID, d[1], int.from_bytes(d[4:8], "big")))
+        elif len(d) == 6 and d[0] == 5:
+            exp.append("P:%d:%d:%d:%d" % (UDP_ID, d[1], int.from_bytes(d[2:4], "big"), int.from_bytes(d[4:6], "big")))
 
     def run(self, steps):
         exp = []
@@ -304,7 +344,18 @@ class Spec:
             if k == "screen":
                 self.scr = s
             elif k == "connect":
-                self.cl[s["c"]] = dict(phase="ver", vo=bool(s["vo"]), minor=None, scale=(self.scr["w"], self.scr["h"]), pend=[])
+                self.cl[s["c"]] = dict(phase="ver", vo=bool(s["vo"]), minor=None, scale=(self.scr["w"], self.scr["h"]), pend=[],
+                                       held=bool(s.get("hold")))
+            elif k == "release":
+                if s["c"] in self.cl:
+                    self.cl[s["c"]]["held"] = False
+            elif k == "udpon":
+                if self.udp is None:
+                    self.udp = dict(hold=bool(s["hold"]))
+            elif k == "udp":
+                self.udp_datagram(bytes.fromhex(s["data"]), exp)
+                if self.one_pass(exp) is None:
+                    return None
             elif k == "vo":
                 if s["c"] in self.cl:
                     self.cl[s["c"]]["vo"] = bool(s["v"])
@@ -315,19 +366,8 @@ class Spec:
                 c["pend"].append(s)
             elif k == "p":
                 for _ in range(s["n"]):
-                    busy = [i for i, c in self.cl.items() if c["phase"] != "closed" and c["pend"]]
-                    if len(busy) > 1:
-                        return None          # not sequential
-                    closed_now = []
-                    for i in busy:
-                        r = self.one(i, exp)
-                        if r is None:
-                            return None
-                        if self.cl[i]["phase"] == "closed":
-                            closed_now.append(i)
-                    for i in closed_now:
-                        if self.holder == i:
-                            self.holder = None
+                    if self.one_pass(exp) is None:
+                        return None
             elif k == "tick":
                 pass
         return exp
@@ -806,6 +846,91 @@ def judge_defer(case, impl_lines):
     return None, {}
 
 
+def gen_datagram(rng):
+    """a datagram for the UDP input channel: well-formed key / pointer events (boundary values), and everything the
+    channel must drop: wrong length for the type, other types, empty"""
+    r = rng.random()
+    if r < 0.35:
+        return m_key(rng.choice([0, 1, 1, 2, 255]), rng.choice(KEY_BOUND + [rng.getrandbits(32)]))
+    if r < 0.7:
+        return m_ptr(rng.choice([0, 1, 2, 4, 255, rng.randrange(256)]), rng.choice(COORD_BOUND + [rng.randrange(65536)]),
+                     rng.choice(COORD_BOUND + [rng.randrange(65536)]))
+    if r < 0.8:
+        return bytes([4]) + bytes(rng.randrange(256) for _ in range(rng.choice([0, 1, 4, 5, 6, 8, 9, 15])))    # key, wrong length
+    if r < 0.9:
+        return bytes([5]) + bytes(rng.randrange(256) for _ in range(rng.choice([0, 1, 4, 6, 7, 8, 15])))       # pointer, wrong length
+    if r < 0.97:
+        return bytes([rng.choice([0, 1, 2, 3, 6, 7, 8, 11, 15, 250, 255])]) + bytes(rng.randrange(256) for _ in range(rng.choice([0, 5, 7, 15])))
+    return b""
+
+
+def case_udp(rng):
+    """the third input source: datagrams on screen->udpSock.  Port open / never opened / UDP client on hold; screens
+    with and without password; TCP connections in every relation to the gates (view-only, holding the pointer,
+    still in the handshake) present at the same time - none of which applies to the UDP channel"""
+    npw = rng.choice([0, 0, 0, 1, 2])
+    scr = rnd_screen(rng, npw=npw, firstvo=rng.randint(0, npw) if npw else 0, deferptr=rng.choice([0, 0, 50]))
+    steps = [scr]
+    opened = False
+    if rng.random() < 0.8:
+        steps.append(dict(k="udpon", hold=1 if rng.random() < 0.2 else 0)); opened = True
+    ncl = rng.choice([0, 1, 1, 2])
+    for c in range(ncl):
+        vo = 1 if rng.random() < 0.4 else 0
+        steps += handshake(rng, c, scr, minor=rng.choice([3, 7, 8]), pw=0 if npw else None, vo=vo)
+    for _ in range(rng.randint(2, 8)):
+        r = rng.random()
+        if r < 0.6 or ncl == 0:
+            steps.append(dict(k="udp", data=gen_datagram(rng).hex()))
+        elif r < 0.85:
+            c = rng.randrange(ncl)
+            for st in msgs_for(rng, c, 1):
+                steps += [st, dict(k="p", n=1)]
+        elif not opened and r < 0.95:
+            steps.append(dict(k="udpon", hold=0)); opened = True
+        else:
+            # a message queued without a pass: it is handled by the pass the next datagram triggers
+            c = rng.randrange(ncl)
+            for st in msgs_for(rng, c, 1):
+                steps += [st]
+            steps.append(dict(k="udp", data=gen_datagram(rng).hex()))
+    steps.append(dict(k="p", n=2))
+    return Case("udp", steps)
+
+
+def case_hold(rng):
+    """a connection the application puts on hold (newClientHook -> RFB_CLIENT_ON_HOLD): nothing its peer sends is
+    processed - not even the handshake - until rfbStartOnHoldClient; then everything arrives, in order.  Another
+    connection works normally meanwhile."""
+    scr = rnd_screen(rng)
+    steps = [scr]
+    other = rng.random() < 0.7
+    if other:
+        steps += handshake(rng, 1, scr, minor=rng.choice([3, 7, 8]))
+    minor = rng.choice([3, 7, 8])
+    hs = handshake(rng, 0, scr, minor=minor, vo=1 if rng.random() < 0.2 else 0)
+    hs[0]["hold"] = 1
+    early = rng.random() < 0.5
+    hsmsgs = [st for st in hs if st["k"] == "hs"]
+    steps.append(hs[0])
+    sent = len(hsmsgs) if early else 1
+    steps += hsmsgs[:sent]
+    if early:
+        for st in msgs_for(rng, 0, rng.randint(0, 3)):
+            steps.append(st)
+    steps.append(dict(k="p", n=rng.randint(1, 3)))
+    if other:
+        for st in msgs_for(rng, 1, rng.randint(1, 3)):
+            steps += [st, dict(k="p", n=1)]
+    steps.append(dict(k="release", c=0))
+    steps.append(dict(k="p", n=8))
+    for st in hsmsgs[sent:]:
+        steps += [st, dict(k="p", n=1)]
+    for st in msgs_for(rng, 0, rng.randint(1, 4)):
+        steps += [st, dict(k="p", n=1)]
+    return Case("hold", steps)
+
+
 def case_sx(rng, exhaustive_slice=None):
     steps = [screen_step()]
     for _ in range(60):
@@ -871,6 +996,10 @@ def gen_cases(ctx):
         add(case_concurrent(rng))
     for _ in range(30 * mult):
         add(case_defer(rng))
+    for _ in range(40 * mult):
+        add(case_udp(rng))
+    for _ in range(25 * mult):
+        add(case_hold(rng))
     for ln in [0, 1, LIMIT - 1, LIMIT, LIMIT + 1, 0x80000000, 0xFFFFFFFF] + ([LIMIT, LIMIT, LIMIT + 1, 65536, 65537] if not quick else []):
         add(case_cutlimit(rng, ln), recut=(ln <= 65536 or not quick))
     for _ in range(10 * mult):
@@ -966,13 +1095,22 @@ def parse_line(l):
 def trace_gating(lines):
     """every callback must come from a connection that was RFB_NORMAL(4) and not view-only on the previous line"""
     prev = {}
+    udp_open = False
     for l in lines:
         p = parse_line(l)
         if p is None:
             continue
         tag, ev, cl, own = p
+        if tag == "udpon":
+            udp_open = True
         for e in ev:
             f = e.split(":")
+            if f[1] == str(UDP_ID):
+                # the UDP channel: only by a datagram (line "udp"), only after the application opened the port,
+                # only key / pointer events
+                if tag != "udp" or not udp_open or f[0] not in ("K", "P"):
+                    return "callback %s attributed to the UDP client outside a datagram on an open UDP port" % e
+                continue
             st = prev.get(f[1])
             if st is None:
                 return "callback %s from a connection that did not exist before this step" % e
